@@ -649,6 +649,10 @@ def run_domain_ops(case, name, which, desc, dom):
                     case.finding("c07:qrandint-sample-outside-bounds",
                                  f"{desc['k']}({desc['lo']},{desc['hi']},{desc['q']}) sampled {v!r} (size=3): {why}",
                                  {"domain": desc, "value": repr(v)})
+                elif desc["k"] == "lograndint" and type(v) is int and desc["hi"] >= 2 ** 40:
+                    case.finding("c07:lograndint-sample-outside-bounds-huge",
+                                 f"lograndint({desc['lo']},{desc['hi']}) sampled {v!r} (size=3): {why}",
+                                 {"domain": desc, "value": repr(v)})
                 else:
                     case.finding("c07:sample-not-member:" + tag, f"{tag} sample(size=3) {v!r}: {why}", {"domain": desc, "value": repr(v)})
             elif st == "ulp":
@@ -671,6 +675,9 @@ def run_domain_ops(case, name, which, desc, dom):
             if is_quantised_int_nondivisible(desc) and type(v) is int:
                 case.finding("c07:qrandint-sample-outside-bounds",
                              f"{desc['k']}({desc['lo']},{desc['hi']},{desc['q']}) sampled {v!r}: {why}", {"domain": desc, "value": repr(v)})
+            elif desc["k"] == "lograndint" and type(v) is int and desc["hi"] >= 2 ** 40:
+                case.finding("c07:lograndint-sample-outside-bounds-huge",
+                             f"lograndint({desc['lo']},{desc['hi']}) sampled {v!r}: {why}", {"domain": desc, "value": repr(v)})
             else:
                 case.finding("c07:sample-not-member:" + tag, f"{tag} sample {v!r}: {why}", {"domain": desc, "value": repr(v)})
         else:
@@ -886,6 +893,12 @@ def run_case(spec):
                                  f"from_ndarray(to_ndarray({cfg[n]!r})) = {back[n]!r} (nearest grid point in log space of the rounded value is another entry)",
                                  {"domain": descs[n], "value": repr(cfg[n]), "back": repr(back[n])})
                     continue
+                if descs[n]["k"] == "reverseloguniform" and abs(float(cfg[n])) < 1e-6:
+                    case.finding("c07:reverseloguniform-roundtrip-precision-near-zero",
+                                 f"reverseloguniform({descs[n]['lo']!r},{descs[n]['hi']!r}): from_ndarray(to_ndarray({cfg[n]!r})) = {float(back[n])!r}, "
+                                 f"relative error {abs(float(back[n]) - float(cfg[n])) / abs(float(cfg[n])):.2e} > 1e-7 (ReverseLogScaling computes log(1 - x) instead of log1p(-x))",
+                                 {"domain": descs[n], "value": repr(cfg[n]), "back": repr(back[n])})
+                    continue
                 case.finding("c07:roundtrip-mismatch:" + kind_tag(descs[n]),
                              f"{kind_tag(descs[n])}: from_ndarray(to_ndarray({cfg[n]!r})) = {back[n]!r}",
                              {"domain": descs[n], "value": repr(cfg[n]), "back": repr(back[n])})
@@ -1066,7 +1079,10 @@ def compare(inp, impl, model):
             return f"bounds length impl {len(impl['bounds'])} model {len(mb)}"
         for j, (ib, m) in enumerate(zip(impl["bounds"], mb)):
             tol = _fl(m[2]) if len(m) > 2 else 0.0
-            if not (_close(_fl(ib[0]), _fl(m[0]), tol) and _close(_fl(ib[1]), _fl(m[1]), tol)):
+            ok = _close(_fl(ib[0]), _fl(m[0]), tol) and _close(_fl(ib[1]), _fl(m[1]), tol)
+            # fixed last position: alternatives of a free index decision of the encoder
+            ok = ok or any(_close(_fl(ib[0]), _fl(c), tol) and _close(_fl(ib[1]), _fl(c), tol) for c in m[3:])
+            if not ok:
                 return f"bounds[{j}] impl {[_fl(t) for t in ib]} model {[_fl(t) for t in m[:2]]} tol {tol}"
         return None
     op = inp.get("op")
@@ -1089,8 +1105,9 @@ def compare(inp, impl, model):
         if len(mv) != len(impl["vec"]):
             return f"encode length impl {len(impl['vec'])} model {len(mv)}"
         for j, (a, m) in enumerate(zip(impl["vec"], mv)):
-            if not _close(_fl(a), _fl(m[0]), _fl(m[1])):
-                return f"encode[{j}] impl {_fl(a)!r} model {_fl(m[0])!r} tol {_fl(m[1])!r}"
+            # m = [value, tol, alternatives of a free index decision ...]
+            if not any(_close(_fl(a), _fl(c), _fl(m[1])) for c in [m[0]] + list(m[2:])):
+                return f"encode[{j}] impl {_fl(a)!r} model {_fl(m[0])!r} tol {_fl(m[1])!r} alts {[_fl(c) for c in m[2:]]}"
         return None
     if op == "decode":
         mc, alts = mo.get("config", {}), mo.get("alts", {})
